@@ -327,6 +327,7 @@ void generate(uint64_t seed, const Str& profile, Desc& d, bool exceptions) {
     }
 
     // configuration
+    if ((profile == "pointers" || profile == "lifecycle") && cfg.chance(1, 8)) d.p["static_wrapper"] = cfg.range(1, 2);
     d.p["repeat"] = cfg.chance(1, 3) ? cfg.range(1, burst ? 2 : 5) : 0;
     d.p["repeat_attached"] = (int64_t)cfg.below(2);
     if (f.order) {
